@@ -44,6 +44,9 @@ var srcKinds = []kindT{
 		func(v string, c int) string { return fmt.Sprintf("%s += %d", v, c) }},
 }
 
+// a non-empty interface with two script types implementing it (one by value, one by pointer)
+const ifaceHead = "package main\n\nimport \"fmt\"\n\ntype I interface{ Str() string }\n\ntype A string\n\nfunc (a A) Str() string { return \"A:\" + string(a) }\n\ntype B struct{ N int }\n\nfunc (b *B) Str() string { return fmt.Sprint(\"B:\", b.N) }\n\nfunc sh(xs ...I) string {\n\ts := \"\"\n\tfor _, x := range xs {\n\t\ts += x.Str() + \" \"\n\t}\n\treturn s\n}\n\n"
+
 const srcHead = "package main\n\nimport \"fmt\"\n\ntype P struct{ X, Y int }\n\n"
 
 func order(rng *rand.Rand, n int) string {
@@ -71,7 +74,7 @@ func genSrc(rng *rand.Rand, k int) srcCase {
 	a, b, c := 1+rng.Intn(9), 1+rng.Intn(9), 10*(1+rng.Intn(9))
 	kd := srcKinds[rng.Intn(len(srcKinds))]
 	agg := srcKinds[rng.Intn(len(srcKinds)-1)] // not int
-	switch k % 29 {
+	switch k % 32 {
 	case 0: // F04-4: a variable declared from a literal in a loop body, captured by a closure
 		return srcCase{"closure-captures-literal-in-loop", "", srcHead + fmt.Sprintf(`func main() {
 	var fs []func() string
@@ -528,6 +531,61 @@ func main() {
 	fmt.Println(x)
 }
 `, a, b, lit)}
+	case 28: // interface-typed variables in multi-assignments, swaps and rotations: the shapes that are in the domain
+		return srcCase{"multiassign-interface-values", "", ifaceHead + fmt.Sprintf(`func named() (a, b I) {
+	a = A("n%d")
+	b = &B{%d}
+	a, b = b, a
+	return
+}
+
+func main() {
+	var a, b I = A("a%d"), &B{%d}
+	a, b = b, a
+	fmt.Println(sh(a, b))
+	s := []I{A("x"), &B{%d}, A("z")}
+	s[0], s[1], s[2] = s[1], s[2], s[0]
+	s[0], a = a, s[0]
+	fmt.Println(sh(s...), sh(a, b))
+	type T struct{ X, Y I }
+	v := T{A("p"), &B{7}}
+	pv := &v
+	v.X, pv.Y = pv.Y, v.X
+	fmt.Println(sh(v.X, v.Y), sh(named()))
+	var e, f interface{} = 1, "x"
+	e, f = %d, "y%d"
+	n := 5
+	e, n = n, 7
+	g := e
+	e = f
+	f = g
+	fmt.Println(e, f, n, g)
+	bp := &B{1}
+	var c, d I = bp, bp
+	c, d = d, c
+	bp.N = %d
+	fmt.Println(sh(c, d))
+}
+`, a, b, a, b, c, a, b, c)}
+	case 29: // open finding F04-25: a multi-assignment storing an interface-typed operand into an interface{} destination
+		body := []string{
+			"var a, b interface{} = %d, \"x\"\n\ta, b = b, a\n\tfmt.Println(a, b)",
+			"var a, b, c interface{} = %d, \"x\", 2.5\n\ta, b, c = b, c, a\n\tfmt.Println(a, b, c)",
+			"s := []interface{}{%d, \"x\"}\n\ts[0], s[1] = s[1], s[0]\n\tfmt.Println(s)",
+			"type T struct{ X, Y interface{} }\n\tv := T{%d, \"x\"}\n\tv.X, v.Y = v.Y, v.X\n\tfmt.Println(v)",
+			"var a, b interface{} = %d, \"x\"\n\tp := &a\n\ta, b = b, *p\n\tfmt.Println(a, b)",
+			"var u I = A(\"u%d\")\n\tvar c interface{}\n\tn := 0\n\tc, n = u, 1\n\tfmt.Println(c, n)",
+		}[rng.Intn(6)]
+		return srcCase{"multiassign-into-empty-interface", "multiassign-iface-into-empty-interface", ifaceHead + "func main() {\n\t" + fmt.Sprintf(body, a) + "\n}\n"}
+	case 30: // open finding F04-26: a multi-assignment storing a concrete value into a destination of a non-empty interface type
+		body := []string{
+			"var a, b I\n\ta, b = A(\"a%d\"), A(\"b\")\n\tfmt.Println(sh(a, b))",
+			"var a, b I\n\ta, b = A(\"a%d\"), &B{2}\n\tfmt.Println(sh(a, b))",
+			"fmt.Println(sh(namedConc()), %d)",
+			"var a I\n\tx := 1\n\ta, x = A(\"q%d\"), 2\n\tfmt.Println(sh(a), x)",
+			"var a, b I\n\tu, v := A(\"a%d\"), A(\"b\")\n\ta, b = u, v\n\tfmt.Println(sh(a, b))",
+		}[rng.Intn(5)]
+		return srcCase{"multiassign-concrete-into-interface", "multiassign-concrete-into-nonempty-interface", ifaceHead + "func namedConc() (a, b I) {\n\ta, b = A(\"a\"), A(\"b\")\n\treturn\n}\n\nfunc main() {\n\t" + fmt.Sprintf(body, a) + "\n}\n"}
 	default: // 26ad67e: local blank assignments get their own slots; blank range variables
 		return srcCase{"blank-assignments-and-blank-loop-variables", "", srcHead + fmt.Sprintf(`func main() {
 	x, s, f := %s, "s", func() int { return %d }
